@@ -140,7 +140,7 @@ def scan_forbidden():
     return bad
 
 
-def build_coq(pid):
+def build_coq(pid, tier="quick"):
     """returns dict(ok, obligations, discharged, detail, theorems, failed)"""
     res = dict(ok=False, obligations=0, discharged=0, detail="", theorems=[], failed=None, axioms={})
     rc, out = sh("python3 %s/extract_consts.py" % HERE)
@@ -188,6 +188,17 @@ def build_coq(pid):
     if bad:
         res["failed"] = "forbidden declaration: " + "; ".join(bad[:5])
         return res
+    if tier == "thorough":
+        # independent re-check of the property module and everything it depends on
+        rc, out = sh("timeout 1500 coqchk -o -silent -Q model FP -Q gen FP -Q spec FP -Q proofs FP -Q props FP FP.%s 2>&1" % pid,
+                     cwd=COQ, timeout=1600)
+        summ = out[out.find("CONTEXT SUMMARY"):] if "CONTEXT SUMMARY" in out else out[-1500:]
+        res["coqchk"] = " ".join(summ.split())[:600]
+        want = ["* Axioms: <none>", "type-in-type: <none>", "unsafe (co)fixpoints: <none>", "positivity is assumed: <none>"]
+        flat = " ".join(summ.split())
+        if rc != 0 or any(w not in flat for w in want):
+            res["failed"] = "coqchk FP.%s: %s" % (pid, flat[:300])
+            return res
     res["ok"] = True
     res["discharged"] = len(thms)
     return res
@@ -440,7 +451,7 @@ def main():
     known_hits = {}
 
     with Lock():
-        proof = build_coq(pid)
+        proof = build_coq(pid, tier)
         okd, dout = build_driver()
         okh, hout, hbin = build_harness("dev")
     log("[%s] consts: %s" % (pid, proof.get("consts", "")))
@@ -525,6 +536,7 @@ def main():
             checker_cmd="make -C coq props/%s.vo (coqc 8.16.1, full .vo) + Print Assumptions + forbidden-token scan" % pid,
             trusted_base=TRUSTED_BASE,
             theorems=proof["theorems"], proof_ok=proof["ok"], proof_failed_at=proof["failed"],
+            coqchk=proof.get("coqchk", "not run in the quick tier"),
             constants=proof.get("consts"),
             evaluations=len(lines), distinct_nontrivial=nt,
             rule="corpus + deterministic atlas (boundary/tie constructions) + seeded structured mixture (tools/gen.py); "
